@@ -113,6 +113,13 @@ class Alignment:
             and version == "gfa1"):
           return gfapy.CIGAR._from_string(string, valid=valid, version=version)
       break
+    else:
+      if not first and version == "gfa2":
+        # only digits: a trace consisting of a single integer
+        t = gfapy.Trace._from_string(string)
+        if not valid:
+          t.validate()
+        return t
     raise gfapy.FormatError("Alignment field contains invalid data {}"
                             .format(repr(string)))
 
